@@ -86,11 +86,36 @@ class _PreludeAbort(Exception):
     pass
 
 
-def run_prelude(env, cfg):
+SELF_FIRST_VALUES = (3, 1, 2, 0, -1)
+
+
+def _self_first(env, cfg, entry):
+    """the program under test runs once before, on other (concrete) operands, in the same recorder: whatever a first
+    execution leaves behind in module-level state (caches keyed too coarsely, remembered operands, counters) meets the
+    run under test.  The first candidate operand value the entry accepts is used; a candidate the entry rejects is
+    rolled back by a fresh reset."""
+    n, r = cfg.get("n", 4), cfg.get("r", 2)
+    rt = env.rt
+    for v in SELF_FIRST_VALUES:
+        k0 = Kit(env, {nm: v for nm in entry.ins}, n, r)
+        try:
+            entry.fn(k0)
+            return v
+        except Exception:
+            ENV.reset(env, bitlength=n, resolution=r)
+            if cfg.get("ignore"):
+                rt.ignore_errors(True)
+    return None
+
+
+def run_prelude(env, cfg, entry=None):
     """history before the program under test: regions that were entered and left (or aborted) earlier in the run must not
     influence it (state restored: C08) -- exercised here so that each property sees such histories too"""
     rt = env.rt
     for kind in cfg.get("prelude") or ():
+        if kind == "self_first":
+            _self_first(env, cfg, entry)
+            continue
         if kind == "false_region":
             rt.guarded(rt.PrivVal(0))(lambda: None)()
         elif kind == "true_region":
@@ -127,7 +152,7 @@ def run_concrete(env, entry, cfg, inputs):
         return out
     if cfg.get("ignore"):
         rt.ignore_errors(True)
-    run_prelude(env, cfg)
+    run_prelude(env, cfg, entry)
     fn = lambda: entry.fn(k)
     for gn in reversed(gnames):
         fn = (lambda inner, gn=gn: (lambda: rt.guarded(k.G(gn))(inner)()))(fn)
